@@ -297,8 +297,8 @@ pub fn run(ctx: &mut Ctx) -> Result<(), Violation> {
     #[cfg(not(feature = "nightly"))]
     let eps = entry_points();
     let _ = nightly_part;
-    let n_fast = ctx.tier.pick(1024usize, 32768);
-    let n_slow = ctx.tier.pick(192usize, 4096);
+    let n_fast = ctx.tier.pick(1024usize, 131072);
+    let n_slow = ctx.tier.pick(192usize, 12288);
     // seeded interleaving: a shuffled schedule of (entry index) tokens, executed by 16 workers
     let mut schedule: Vec<usize> = vec![];
     for (i, e) in eps.iter().enumerate() {
